@@ -170,11 +170,34 @@ def guards(body, bb, cd=None, skip_try=True, _seen=None):
     return out
 
 
-def dom_guards(body, bb, cd=None, skip_try=True):
+def dom_guards(body, bb, cd=None, skip_try=True, _depth=0):
     """The guards of bb that hold on *every* execution reaching bb: branch edges (a -> s) whose target s
     dominates bb.  (`guards` also returns conditions inherited around loop back edges, in both polarities.)"""
     # (a back edge a -> s with s dominating a is excluded: its condition only held on a previous iteration)
-    return [(a, s, c) for (a, s, c) in guards(body, bb, cd, skip_try) if body.dominates(s, bb) and not body.dominates(s, a)]
+    out = []
+    for (a, s, c) in guards(body, bb, cd, False):
+        if not (body.dominates(s, bb) and not body.dominates(s, a)):
+            continue
+        # the success arm of a test on a Result/Option that is built on several paths of an expanded helper and
+        # is Ok/Some on exactly one of them: whatever guards that one definition also holds here
+        term, vals, neg, dty = c
+        if term[0] == "discr" and _depth < 4:
+            x = term[1]
+            via_try = x[0] == "call" and x[1] in TRY_BRANCH and len(x[2]) == 1
+            v = x[2][0] if via_try else x
+            while v[0] in ("ref", "deref"):
+                v = v[1]
+            if v[0] == "var" and hasattr(body, "sole_ok_block"):
+                ok = body.sole_ok_block(v[1])
+                if ok is not None:
+                    want = 0 if via_try else ok[1]
+                    sel = (vals == (want,) and not neg) or (neg and want not in vals and len(vals) == 1)
+                    if sel and ok[0] != bb:
+                        out.extend(g for g in dom_guards(body, ok[0], cd, skip_try, _depth + 1) if g not in out)
+        if skip_try and is_try_cond(c):
+            continue
+        out.append((a, s, c))
+    return out
 
 
 def rpo(body):
@@ -231,7 +254,7 @@ class PathLimit(Exception):
 
 
 class Path:
-    __slots__ = ("conds", "events", "ret", "end", "blocks", "env")
+    __slots__ = ("conds", "events", "ret", "end", "blocks", "env", "loop_to")
 
     def __init__(self):
         self.conds = []   # list of (bb, term, vals, neg, dty)
@@ -361,6 +384,7 @@ def enum_paths(body, max_paths=4000, start=0, env0=None, unroll=False):
         while True:
             if bb in visited:
                 path.end = "loop"
+                path.loop_to = bb
                 path.env = env
                 out.append(path)
                 return
